@@ -48,9 +48,26 @@ var c17AllVals = []string{"x", strings.Repeat("L", 40), "y"}
 var c17Prefixes = []string{"", "\x00", "\x01", "\x10", "\x00\x11", "\x00\x12", "\x00\x11\x22", "\x00\x11\x22\x33", "\xff", "\x02", "\x00\x11\x23"}
 
 type c17Alphabet struct {
-	keys []string
-	vals []string
+	keys     []string
+	vals     []string
+	boundary bool // vals = c17BoundaryVals
 }
+
+// value lengths at and around the RLP size boundaries: 55/56 for the value
+// string itself (and 255/256 for its length field), lengths that make the leaf
+// list payload (encoded key + encoded value) 55/56 bytes for keys of 0..2 bytes
+// (50..54), that make a branch with one hashed child and a value 55/56 bytes
+// (6,7) or a branch with seven hashed children 255/256 bytes (14,15), and the
+// embedded/hashed node limit (31..33). Every value starts with its own letter
+// (the model key of the canonicity table records the first byte).
+var c17BoundaryLens = []int{1, 5, 6, 7, 8, 14, 15, 31, 32, 33, 50, 51, 52, 53, 54, 55, 56, 57, 255, 256}
+var c17BoundaryVals = func() []string {
+	var out []string
+	for i, n := range c17BoundaryLens {
+		out = append(out, strings.Repeat(string([]byte{byte('a' + i)}), n))
+	}
+	return out
+}()
 
 const (
 	c17Snap = iota
@@ -362,15 +379,19 @@ type c17Inst struct {
 }
 
 type c17Case struct {
-	Flavour int   `json:"flavour"`
-	Keys    int   `json:"keys"`
-	Vals    int   `json:"vals"`
-	Ops     []int `json:"ops"`
-	Other   []int `json:"other_history,omitempty"` // second history for canonicity conflicts
-	OtherFl int   `json:"other_flavour,omitempty"`
+	Flavour  int   `json:"flavour"`
+	Keys     int   `json:"keys"`
+	Vals     int   `json:"vals"`
+	Boundary bool  `json:"rlp_boundary_values,omitempty"`
+	Ops      []int `json:"ops"`
+	Other    []int `json:"other_history,omitempty"` // second history for canonicity conflicts
+	OtherFl  int   `json:"other_flavour,omitempty"`
 }
 
 func (c c17Case) alphabet() *c17Alphabet {
+	if c.Boundary {
+		return &c17Alphabet{keys: c17AllKeys[:c.Keys], vals: c17BoundaryVals, boundary: true}
+	}
 	return &c17Alphabet{keys: c17AllKeys[:c.Keys], vals: c17AllVals[:c.Vals]}
 }
 
@@ -695,7 +716,7 @@ func (in *c17Inst) countPaths(sh *c17Shared, before string, after string) {
 
 func c17Run(sh *c17Shared, alpha *c17Alphabet, hist []byte) (string, bool) {
 	atomic.AddInt64(&sh.evals, 1)
-	cs := c17Case{Flavour: int(hist[0]), Keys: len(alpha.keys), Vals: len(alpha.vals)}
+	cs := c17Case{Flavour: int(hist[0]), Keys: len(alpha.keys), Vals: len(alpha.vals), Boundary: alpha.boundary}
 	in := &c17Inst{flavour: cs.Flavour, alpha: alpha, d: c17NewDB(), cur: map[string]string{}}
 	in.mut = c17NewMutable(in.flavour, in.d, nil)
 	var before string
@@ -762,7 +783,7 @@ func TestVerifC17(t *testing.T) {
 	}
 	r.Rule("BFS over operation histories on the real bytes trie and object trie over a MapDB, one search per bound: " + strings.Join(rule, "; ") +
 		". Values: 1 byte (embedded nodes) and 40 bytes (hashed nodes). Trie-level ops: GetSnapshot->stash, Reset(stash), stash.Flush, reload from stash hash, ClearCache of mutable / stash, Get of every key, and three macros (snapshot+flush, +reload, +ClearCache). At the end of every history: Get of every key, Empty, Hash (canonicity table model<->root shared by all histories and both flavours), Iterator and Filter for " + strconv.Itoa(len(c17Prefixes)) +
-		" prefixes on a fresh snapshot and on a trie reopened from the root hash after Flush; Get/Hash/Iterator on the stashed snapshot and again after ClearCache. In addition (both tiers) a directed family of 61 056 histories over the full 9-key universe: insert 1-2 keys, GetSnapshot->stash, insert 1-2 other keys, delete all of the first or all of the second group in both orders (1-byte or 40-byte values, both flavours), with the same end-of-history observation (snapshot isolation under node split and collapse). Distinct non-trivial = distinct canonical state (model maps + shape and node states of the real node graphs incl. sharing + set of stored node hashes)")
+		" prefixes on a fresh snapshot and on a trie reopened from the root hash after Flush; Get/Hash/Iterator on the stashed snapshot and again after ClearCache. In addition (both tiers) a directed family of 61 056 histories over the full 9-key universe: insert 1-2 keys, GetSnapshot->stash, insert 1-2 other keys, delete all of the first or all of the second group in both orders (1-byte or 40-byte values, both flavours), with the same end-of-history observation (snapshot isolation under node split and collapse); and a directed family over value sizes at the RLP boundaries (20 lengths 1,5..8,14,15,31..33,50..57,255,256): every single-entry trie and every two-entry trie over ordered pairs of the 9 keys (quick: second value 1 or 33 bytes; thorough: every pair of lengths), both flavours, observed fresh, reopened from the root hash after Flush and after ClearCache. Distinct non-trivial = distinct canonical state (model maps + shape and node states of the real node graphs incl. sharing + set of stored node hashes)")
 	r.Assume("values are non-empty (the trie does not support empty values: a branch value of length 0 is dropped on decode)",
 		"single goroutine; database = MapDB that never fails; no node cache attached",
 		"states are de-duplicated on a 128-bit hash of the canonical state string",
@@ -866,16 +887,54 @@ func TestVerifC17(t *testing.T) {
 			}
 		}
 	}
+	// Directed family 2 (both tiers): value sizes at the RLP boundaries crossed with the
+	// persistence phases. Every single-entry trie (9 keys x 20 value lengths) and
+	// two-entry tries (every ordered pair of keys; quick: first value any length, second
+	// 1 or 33 bytes; thorough: every pair of lengths), both flavours; the end-of-history
+	// observation reads the trie fresh, reopened from the root hash after Flush and after ClearCache.
+	bAlpha := &c17Alphabet{keys: c17AllKeys, vals: c17BoundaryVals, boundary: true}
+	nDirected1 := len(directed)
+	{
+		nk, nv := len(bAlpha.keys), len(bAlpha.vals)
+		second := []int{0, 9} // lengths 1 and 33
+		if r.Thorough() {
+			second = nil
+			for v := 0; v < nv; v++ {
+				second = append(second, v)
+			}
+		}
+		for fl := 0; fl < 2; fl++ {
+			for k1 := 0; k1 < nk; k1++ {
+				for v1 := 0; v1 < nv; v1++ {
+					directed = append(directed, []byte{byte(fl), byte(k1*nv + v1)})
+					for k2 := 0; k2 < nk; k2++ {
+						if k2 == k1 {
+							continue
+						}
+						for _, v2 := range second {
+							directed = append(directed, []byte{byte(fl), byte(k1*nv + v1), byte(k2*nv + v2)})
+						}
+					}
+				}
+			}
+		}
+	}
 	var dirDone int64
 	ev.Par(len(directed), 0, func(i int) {
 		if r.Expired() || r.Violations() > 20 {
 			return
 		}
-		key, _ := c17Run(sh, dAlpha, directed[i])
+		a := dAlpha
+		if i >= nDirected1 {
+			a = bAlpha
+		}
+		key, _ := c17Run(sh, a, directed[i])
 		r.Nontrivial("d:" + key)
 		atomic.AddInt64(&dirDone, 1)
 	})
-	r.Set("directed_snapshot_split_collapse_histories", dirDone)
+	r.Set("directed_snapshot_split_collapse_histories", nDirected1)
+	r.Set("directed_rlp_boundary_value_size_histories", len(directed)-nDirected1)
+	r.Set("directed_histories_completed", dirDone)
 	if int(dirDone) != len(directed) {
 		st.Complete = false
 	}
